@@ -885,6 +885,7 @@ def cmdRename (c : Ctx) (db : Db) (src dst : Bytes) (nx : Bool) : R :=
     R.ok db2 (if nx then .int 1 else vOK)
 
 def cmdCopy (c : Ctx) (db : Db) (src dst : Bytes) (replace : Bool) : R :=
+  if src == dst then R.ok db (.error (sb "ERR source and destination objects are the same")) else
   match srcLookup c db src with
   | none => R.ok db (.int 0)
   | some e =>
